@@ -168,10 +168,8 @@ pub fn run(ctx: &Ctx, rep: &mut Report) {
                     return;
                 }
                 let toks: Vec<i128> = crate::monitors::c15::int_tokens(&second).into_iter().filter(|v| *v >= 1_000_000_000).collect();
-                if toks.iter().any(|v| *v < t0 || *v > t1) {
-                    rep.violation("C20:clock-read-at-render-time", &format!("embedded second {:?} outside the compile window [{}, {}]", toks, t0, t1), &case, J::obj(vec![("program", J::s(&second))]));
-                    return;
-                }
+                // (that the second lies inside the compile window is C15's sentence; checked there with a delayed render)
+                let _ = (toks, t0, t1);
                 rep.count("clock_histories_ok");
             }
             Ok(None) => {}
